@@ -173,6 +173,17 @@ def senderView (fixed : Bool) (cfg : Cfg) (full : List VEnt) : List VEnt :=
       | none => []
     { st := s, sha := if s.canRequestData && s.linkname = [] then srcSha else [] }
 
+/-- a stack of filters (the first configuration is the innermost `NewFilterFS`), then the hard-link reset -/
+def senderViewN (fixed : Bool) (cfgs : List Cfg) (full : List VEnt) : List VEnt :=
+  let stats := hardlinkReset (cfgs.foldl (fun l cfg => filterWalk fixed cfg l) (full.map (·.st)))
+  stats.map fun s =>
+    let orig := full.find? (·.st.path = s.path)
+    let srcSha := match orig with
+      | some o =>
+        if o.st.canRequestData && o.st.linkname ≠ [] then ((full.find? (·.st.path = o.st.linkname)).map (·.sha)).getD o.sha else o.sha
+      | none => []
+    { st := s, sha := if s.canRequestData && s.linkname = [] then srcSha else [] }
+
 /-- C11: in a reset listing every hard link names an earlier regular non-link entry of the same listing -/
 def linksClosed : List Path → List StatE → Bool
   | _, [] => true
